@@ -1,1 +1,598 @@
+(* Lemmas behind Props/C20.v. *)
 From TT Require Import Lib.Base Model.Deferred Model.DeferredMatchers Spec.C20 Corr.C20.
+
+(* ====================================================================== *)
+(* 1. the comparisons are exact                                            *)
+(* ====================================================================== *)
+Lemma dres_eqb_spec a b : dres_eqb a b = true <-> a = b.
+Proof.
+  destruct a, b; simpl; rewrite ?Nat.eqb_eq; split; intro H;
+    try discriminate; try (injection H as ->); subst; reflexivity.
+Qed.
+
+Lemma dstate_eqb_spec a b : dstate_eqb a b = true <-> a = b.
+Proof.
+  destruct a, b; simpl; rewrite ?Nat.eqb_eq; split; intro H;
+    try discriminate; try (injection H as ->); subst; reflexivity.
+Qed.
+
+Lemma xexc_eqb_spec a b : xexc_eqb a b = true <-> a = b.
+Proof.
+  destruct a, b; simpl; rewrite ?Nat.eqb_eq; split; intro H;
+    try discriminate; try (injection H as ->); subst; reflexivity.
+Qed.
+
+Lemma opout_eqb_spec a b : opout_eqb a b = true <-> a = b.
+Proof.
+  destruct a as [x| | |x], b as [y| | |y]; simpl; try (split; intro H; (discriminate || reflexivity)).
+  - rewrite bool_eqb_spec. split; intro H; [subst|injection H]; auto.
+  - rewrite (res_eqb_spec Nat.eqb xexc_eqb Nat.eqb_eq xexc_eqb_spec).
+    split; intro H; [subst|injection H]; auto.
+Qed.
+
+Lemma uret_eqb_spec a b : uret_eqb a b = true <-> a = b.
+Proof.
+  destruct a, b; simpl; rewrite ?Nat.eqb_eq, ?xexc_eqb_spec; split; intro H;
+    try discriminate; try (injection H as ->); subst; reflexivity.
+Qed.
+
+Lemma log_eqb_spec a b : log_eqb a b = true <-> a = b.
+Proof. apply list_eqb_spec. apply pair_eqb_spec; [apply Nat.eqb_eq | apply dres_eqb_spec]. Qed.
+
+Lemma cbfun_eqb_spec a b : cbfun_eqb a b = true <-> a = b.
+Proof.
+  destruct a, b; simpl; rewrite ?Nat.eqb_eq; split; intro H;
+    try discriminate; try (injection H as ->); subst; reflexivity.
+Qed.
+
+Lemma inner_eqb_spec a : forall b, inner_eqb a b = true <-> a = b.
+Proof.
+  induction a as [| |k|a IH|a1 IH1 a2 IH2|a1 IH1 a2 IH2]; intros [| |k'|b|b1 b2|b1 b2]; simpl;
+    try (split; intro H; (discriminate || reflexivity)).
+  - rewrite Nat.eqb_eq. split; intro H; [subst|injection H]; auto.
+  - rewrite IH. split; intro H; [subst|injection H]; auto.
+  - rewrite andb_true_iff, IH1, IH2. split; [intros [-> ->]; reflexivity | intro H; injection H; auto].
+  - rewrite andb_true_iff, IH1, IH2. split; [intros [-> ->]; reflexivity | intro H; injection H; auto].
+Qed.
+
+Lemma matcher_eqb_spec a b : matcher_eqb a b = true <-> a = b.
+Proof.
+  destruct a, b; simpl; rewrite ?inner_eqb_spec; split; intro H;
+    try discriminate; try (injection H as ->); subst; reflexivity.
+Qed.
+
+Lemma op_eqb_spec a b : op_eqb a b = true <-> a = b.
+Proof.
+  destruct a, b; simpl; try (split; intro H; (discriminate || reflexivity)).
+  - rewrite matcher_eqb_spec. split; intro H; [subst|injection H]; auto.
+  - rewrite Nat.eqb_eq. split; intro H; [subst|injection H]; auto.
+  - rewrite Nat.eqb_eq. split; intro H; [subst|injection H]; auto.
+  - rewrite andb_true_iff, !cbfun_eqb_spec. split; [intros [-> ->]; reflexivity | intro H; injection H; auto].
+  - rewrite dres_eqb_spec. split; intro H; [subst|injection H]; auto.
+Qed.
+
+Lemma ops_eqb_spec a b : list_eqb op_eqb a b = true <-> a = b.
+Proof. apply list_eqb_spec, op_eqb_spec. Qed.
+
+Lemma oobs_eqb_spec a b : oobs_eqb a b = true <-> a = b.
+Proof.
+  destruct a, b; unfold oobs_eqb; simpl.
+  rewrite !andb_true_iff, !dstate_eqb_spec, !bool_eqb_spec, opout_eqb_spec, Nat.eqb_eq.
+  split; [intros [[[[[-> ->] ->] ->] ->] ->]; reflexivity | intro H; injection H; intros; subst; tauto].
+Qed.
+
+Lemma hobs_eqb_spec a b : hobs_eqb a b = true <-> a = b.
+Proof.
+  destruct a, b; unfold hobs_eqb; simpl.
+  rewrite !andb_true_iff, (list_eqb_spec oobs_eqb oobs_eqb_spec), !log_eqb_spec, !bool_eqb_spec,
+    ops_eqb_spec, dstate_eqb_spec.
+  split; [intros [[[[[[[-> ->] ->] ->] ->] ->] ->] ->]; reflexivity | intro H; injection H; intros; subst; tauto].
+Qed.
+
+Lemma sobs_eqb_spec a b : sobs_eqb a b = true <-> sobs_alpha a = sobs_alpha b.
+Proof.
+  unfold sobs_eqb, sobs_alpha. rewrite !andb_true_iff, !uret_eqb_spec, bool_eqb_spec.
+  split; [intros [[-> ->] ->]; reflexivity | intro H; injection H; auto].
+Qed.
+
+(* the correspondence compares observations exactly, up to alpha (which forgets only the
+   event lists of the two whole-test runs and keeps whether they are equal) *)
+Theorem obs_eqb_spec a b : obs_eqb a b = true <-> alpha a = alpha b.
+Proof.
+  destruct a as [x|x], b as [y|y]; simpl; try (split; intro H; discriminate).
+  - rewrite hobs_eqb_spec. split; intro H; [subst|injection H as ->]; reflexivity.
+  - rewrite sobs_eqb_spec. split; intro H; [rewrite H; reflexivity | unfold sobs_alpha in *; congruence].
+Qed.
+
+(* ====================================================================== *)
+(* 2. the executable statement implies the readable one                    *)
+(* ====================================================================== *)
+Lemma forall2b_Forall2 {A B} (p : A -> B -> bool) (P : A -> B -> Prop) :
+  (forall a b, p a b = true -> P a b) ->
+  forall l m, forall2b p l m = true -> Forall2 P l m.
+Proof.
+  intros H l; induction l as [|a l IH]; intros [|b m] E; simpl in E; try discriminate; constructor.
+  - apply andb_true_iff in E as [E _]. apply H, E.
+  - apply andb_true_iff in E as [_ E]. apply IH, E.
+Qed.
+
+Lemma op_okb_sound o x : op_okb o x = true -> Op_spec o x.
+Proof.
+  destruct o as [m| | | | | | |]; simpl; try (intros _; exact I).
+  - rewrite !andb_true_iff, opout_eqb_spec, bool_eqb_spec, Nat.eqb_eq. intros [[[H1 H2] H3] H4].
+    repeat split; try assumption. unfold after_okb in H4.
+    destruct (inspects m (p_before x)).
+    + destruct (p_after x); try discriminate. eexists; reflexivity.
+    + apply dstate_eqb_spec, H4.
+  - rewrite opout_eqb_spec. auto.
+Qed.
+
+Theorem spec_okb_sound i o : spec_okb i o = true -> Spec i o.
+Proof.
+  destruct i as [ops|pos s], o as [h|x]; simpl; try discriminate.
+  - unfold hist_okb, Hist_spec. rewrite !andb_true_iff.
+    intros [[[[[[H1 H2] H3] H4] H5] H6] H7].
+    apply ops_eqb_spec in H2. apply log_eqb_spec in H3. apply dstate_eqb_spec in H4.
+    apply (proj1 (bool_eqb_spec _ _)) in H5. apply (proj1 (bool_eqb_spec _ _)) in H6.
+    repeat split; try assumption.
+    + revert H1. apply forall2b_Forall2. exact op_okb_sound.
+    + intro U. rewrite U in H7. simpl in H7. rewrite orb_false_r in H7.
+      apply orb_true_iff in H7 as [H7|H7].
+      * right. destruct (final_state (h_ops h)); try discriminate. eexists; reflexivity.
+      * left. apply dstate_eqb_spec, H7.
+  - unfold sync_okb, Sync_spec. rewrite !andb_true_iff, !uret_eqb_spec.
+    intros [[H1 H2] H3]. apply (list_eqb_spec Nat.eqb Nat.eqb_eq) in H3. auto.
+Qed.
+
+(* ====================================================================== *)
+(* 3. the Deferred: reachable states                                       *)
+(* ====================================================================== *)
+(* What every state reached by a history satisfies: a Deferred that can hand out a result
+   has handed it to all its callbacks (none are pending) and its DebugInfo remembers exactly
+   a Failure result; only a Deferred that was fired can have a Failure on record. *)
+Definition good (d : deferred) : Prop :=
+  (runnable d = true -> forall x, d_result d = Some x -> d_callbacks d = [] /\ d_debugfail d = is_rerr x)
+  /\ (d_debugfail d = true -> d_called d = true).
+
+(* the two shapes of a good Deferred *)
+Definition ready (x : dres) : deferred := mkD true (Some x) [] 0 false (is_rerr x).
+Definition idle (d : deferred) : Prop := runnable d = false \/ d_result d = None.
+Definition with_cb (p : cbpair) (d : deferred) : deferred :=
+  mkD (d_called d) (d_result d) (d_callbacks d ++ [p]) (d_paused d) (d_waiting d) (d_debugfail d).
+
+Lemma runnable_fields d : runnable d = true -> d_called d = true /\ d_paused d = 0 /\ d_waiting d = false.
+Proof. unfold runnable. rewrite !andb_true_iff, Nat.eqb_eq, negb_true_iff. tauto. Qed.
+
+Lemma good_cases d : good d -> idle d \/ exists x, d = ready x.
+Proof.
+  intros [G _]. destruct (runnable d) eqn:R; [|left; left; exact R].
+  destruct (d_result d) as [x|] eqn:E; [|left; right; exact E].
+  right. exists x. destruct (G eq_refl x eq_refl) as [C F]. destruct (runnable_fields d R) as (A & B & W).
+  destruct d; simpl in *; subst; reflexivity.
+Qed.
+
+Lemma good_ready x : good (ready x).
+Proof. split; simpl; [intros _ y H; injection H as <-; auto | auto]. Qed.
+
+Lemma good_new : good new_deferred.
+Proof. split; simpl; [discriminate | discriminate]. Qed.
+
+Lemma state_idle d : idle d -> state_of d = if d_called d then SWaiting else SUnfired.
+Proof.
+  unfold state_of. destruct (d_called d); simpl; [|reflexivity].
+  intros [H|H]; [rewrite H; reflexivity|]. destruct (runnable d); simpl; [rewrite H|]; reflexivity.
+Qed.
+
+Lemma state_ready x : state_of (ready x) = match x with RVal v => SVal v | RErr e => SErr e end.
+Proof. destruct x; reflexivity. Qed.
+
+Lemma run_cbs_done cbs : forall x lg y rest lg', run_cbs cbs x lg = (Some y, rest, lg') -> rest = [].
+Proof.
+  induction cbs as [|p r IH]; intros x lg y rest lg' H; simpl in H.
+  - injection H as _ <- _. reflexivity.
+  - destruct (step_cb p x lg) as [[z|] lg1]; [eapply IH; eauto | discriminate].
+Qed.
+
+Lemma run_callbacks_good d lg : (d_debugfail d = true -> d_called d = true) -> good (fst (run_callbacks d lg)).
+Proof.
+  intro G2. unfold run_callbacks. destruct (runnable d) eqn:R.
+  - destruct (d_result d) as [x|] eqn:E.
+    + destruct (run_cbs (d_callbacks d) x lg) as [[[y|] rest] lg'] eqn:RC; simpl.
+      * split; simpl; [|reflexivity]. intros _ z Hz. injection Hz as <-.
+        split; [eapply run_cbs_done; eauto | reflexivity].
+      * split; simpl; [discriminate | discriminate].
+    + simpl. split; [intros _ x Hx; rewrite E in Hx; discriminate | exact G2].
+  - simpl. split; [intro H; rewrite R in H; discriminate | exact G2].
+Qed.
+
+Lemma add_callbacks_good p d lg : good d -> good (fst (add_callbacks p d lg)).
+Proof. intros [_ G2]. unfold add_callbacks. apply run_callbacks_good. exact G2. Qed.
+
+Lemma run_callbacks_idle d lg : idle d -> run_callbacks d lg = (d, lg).
+Proof.
+  unfold run_callbacks. intros [H|H]; [rewrite H; reflexivity|].
+  destruct (runnable d); [rewrite H|]; reflexivity.
+Qed.
+
+Lemma add_callbacks_idle p d lg : idle d -> add_callbacks p d lg = (with_cb p d, lg).
+Proof. intro H. unfold add_callbacks. apply run_callbacks_idle. exact H. Qed.
+
+(* ---- every operation keeps the Deferred good ---- *)
+Lemma match_deferred_good m d lg : good d -> good (snd (fst (match_deferred m d lg))).
+Proof.
+  intro G. unfold match_deferred.
+  pose proof (add_callbacks_good (CPass, CPass) d lg G) as G1.
+  destruct (add_callbacks (CPass, CPass) d lg) as [d1 lg1]. simpl in G1.
+  pose proof (add_callbacks_good (CPass, CConst 0) d1 lg1 G1) as G2.
+  destruct (add_callbacks (CPass, CConst 0) d1 lg1) as [d2 lg2]. simpl in G2.
+  destruct m; destruct (if runnable d then d_result d1 else None) as [[v|e]|]; simpl; assumption.
+Qed.
+
+Lemma step_good o d lg : good d -> good (snd (fst (step o d lg))).
+Proof.
+  intro G. pose proof G as [G1 G2]. destruct o as [m|v|e|cb eb| | | |x]; simpl.
+  - pose proof (match_deferred_good m d lg G) as H.
+    destruct (match_deferred m d lg) as [[b d'] lg']. exact H.
+  - unfold fire. destruct (d_called d); simpl; [exact G|].
+    match goal with |- context [run_callbacks ?a ?b] =>
+      pose proof (run_callbacks_good a b) as H; destruct (run_callbacks a b) end. apply H. reflexivity.
+  - unfold fire. destruct (d_called d); simpl; [exact G|].
+    match goal with |- context [run_callbacks ?a ?b] =>
+      pose proof (run_callbacks_good a b) as H; destruct (run_callbacks a b) end. apply H. reflexivity.
+  - pose proof (add_callbacks_good (cb, eb) d lg G) as H.
+    destruct (add_callbacks (cb, eb) d lg). exact H.
+  - unfold extract_result.
+    pose proof (add_callbacks_good (CConst 0, CConst 0) d lg G) as H.
+    destruct (add_callbacks (CConst 0, CConst 0) d lg). exact H.
+  - split; simpl; [|exact G2]. unfold runnable; simpl. rewrite andb_false_r. discriminate.
+  - unfold unpause. destruct (d_paused d) as [|k]; simpl; [exact G|].
+    match goal with |- context [run_callbacks ?a ?b] =>
+      pose proof (run_callbacks_good a b) as H; destruct (run_callbacks a b) end. apply H. exact G2.
+  - unfold resume. destruct (d_waiting d); simpl; [|exact G].
+    match goal with |- context [run_callbacks ?a ?b] =>
+      pose proof (run_callbacks_good a b) as H; destruct (run_callbacks a b) end. apply H. exact G2.
+Qed.
+
+Lemma run_ops_good ops : forall d lg, good d -> good (snd (fst (run_ops ops d lg))).
+Proof.
+  induction ops as [|o r IH]; intros d lg G; simpl; [exact G|].
+  pose proof (step_good o d lg G) as G1.
+  destruct (step o d lg) as [[out d1] lg1]. simpl in G1.
+  specialize (IH d1 lg1 G1). destruct (run_ops r d1 lg1) as [[xs d2] lg2]. exact IH.
+Qed.
+
+(* ====================================================================== *)
+(* 4. what a match / extract_result returns and does                       *)
+(* ====================================================================== *)
+Lemma match_deferred_idle m d lg : idle d ->
+  match_deferred m d lg = (match m with MNoResult => true | _ => false end, with_cb (CPass, CPass) d, lg).
+Proof.
+  intro H. unfold match_deferred. rewrite (add_callbacks_idle _ _ _ H).
+  assert (C : (if runnable d then d_result (with_cb (CPass, CPass) d) else None) = None).
+  { destruct H as [H|H]; [rewrite H; reflexivity|]. destruct (runnable d); [exact H|reflexivity]. }
+  rewrite C. destruct m; reflexivity.
+Qed.
+
+Definition consumed : deferred := ready (RVal 0).
+
+Lemma match_deferred_ready m x lg :
+  match_deferred m (ready x) lg =
+  (expect_match m (state_of (ready x)), (if inspects m (state_of (ready x)) then consumed else ready x), lg).
+Proof. destruct x, m; reflexivity. Qed.
+
+Lemma inspects_idle m d : idle d -> inspects m (state_of d) = false.
+Proof. intro H. rewrite (state_idle d H). destruct m, (d_called d); reflexivity. Qed.
+
+Lemma expect_idle m d : idle d ->
+  expect_match m (state_of d) = match m with MNoResult => true | _ => false end.
+Proof. intro H. rewrite (state_idle d H). destruct m, (d_called d); reflexivity. Qed.
+
+Lemma idle_with_cb p d : idle d -> idle (with_cb p d).
+Proof. unfold idle, with_cb, runnable; simpl. auto. Qed.
+
+Lemma state_with_cb p d : idle d -> state_of (with_cb p d) = state_of d.
+Proof. intro H. rewrite (state_idle _ (idle_with_cb p d H)), (state_idle d H). reflexivity. Qed.
+
+(* verdict, no firing, no callback run, effect on the inspected state *)
+Lemma match_deferred_okb m d lg : good d ->
+  forall b d1 lg1, match_deferred m d lg = (b, d1, lg1) ->
+  b = expect_match m (state_of d) /\ d_called d1 = d_called d /\ lg1 = lg
+  /\ (if inspects m (state_of d) then d1 = consumed else state_of d1 = state_of d).
+Proof.
+  intros G b d1 lg1 E. destruct (good_cases d G) as [I|[x ->]].
+  - rewrite (match_deferred_idle m d lg I) in E. injection E as <- <- <-.
+    rewrite (expect_idle m d I), (inspects_idle m d I), (state_with_cb _ d I). auto.
+  - rewrite match_deferred_ready in E. injection E as <- <- <-.
+    repeat split. + destruct (inspects m (state_of (ready x))); reflexivity.
+    + destruct (inspects m (state_of (ready x))); reflexivity.
+Qed.
+
+Lemma extract_result_okb d lg : good d ->
+  fst (fst (extract_result d lg)) = expect_extract (state_of d).
+Proof.
+  intro G. unfold extract_result. destruct (add_callbacks (CConst 0, CConst 0) d lg) as [d1 lg1]. simpl.
+  destruct (good_cases d G) as [I|[x ->]].
+  - assert (C : (if runnable d then d_result d else None) = None).
+    { destruct I as [H|H]; [rewrite H; reflexivity|]. destruct (runnable d); [exact H|reflexivity]. }
+    rewrite C, (state_idle d I). destruct (d_called d); reflexivity.
+  - destruct x; reflexivity.
+Qed.
+
+(* ====================================================================== *)
+(* 5. passivity: a history and the same history without its matches        *)
+(* ====================================================================== *)
+(* [dp l l']: l is l' with some pass-through pairs (the capture pairs of on_deferred_result) inserted *)
+Inductive dp : list cbpair -> list cbpair -> Prop :=
+| dp_nil : dp [] []
+| dp_keep p l l' : dp l l' -> dp (p :: l) (p :: l')
+| dp_skip l l' : dp l l' -> dp ((CPass, CPass) :: l) l'.
+
+(* the Deferred of the run with matches against the Deferred of the run without: equal but for
+   capture pairs still waiting in the chain *)
+Definition Rel (d d' : deferred) : Prop :=
+  d_called d = d_called d' /\ d_result d = d_result d' /\ dp (d_callbacks d) (d_callbacks d')
+  /\ d_paused d = d_paused d' /\ d_waiting d = d_waiting d' /\ d_debugfail d = d_debugfail d'.
+
+Lemma dp_refl l : dp l l.
+Proof. induction l; constructor; assumption. Qed.
+
+Lemma dp_app p l l' : dp l l' -> dp (l ++ [p]) (l' ++ [p]).
+Proof. induction 1; simpl; try (constructor; assumption). apply dp_refl. Qed.
+
+Lemma dp_app_skip l l' : dp l l' -> dp (l ++ [(CPass, CPass)]) l'.
+Proof. induction 1; simpl; try (constructor; assumption). apply dp_skip, dp_nil. Qed.
+
+Lemma dp_nil_inv l' : dp [] l' -> l' = [].
+Proof. inversion 1; reflexivity. Qed.
+
+Lemma Rel_refl d : Rel d d.
+Proof. repeat split; try reflexivity. apply dp_refl. Qed.
+
+Lemma Rel_runnable d d' : Rel d d' -> runnable d = runnable d'.
+Proof. intros (A & _ & _ & B & C & _). unfold runnable. rewrite A, B, C. reflexivity. Qed.
+
+Lemma Rel_state d d' : Rel d d' -> state_of d = state_of d'.
+Proof.
+  intro H. pose proof (Rel_runnable d d' H) as R. destruct H as (A & B & _).
+  unfold state_of. rewrite A, B, R. reflexivity.
+Qed.
+
+Lemma Rel_ready x d' : Rel (ready x) d' -> d' = ready x.
+Proof.
+  intros (A & B & C & D & E & F). simpl in *. apply dp_nil_inv in C.
+  destruct d'; simpl in *; subst; reflexivity.
+Qed.
+
+Lemma step_cb_pass x lg : step_cb (CPass, CPass) x lg = (Some x, lg).
+Proof. destruct x; reflexivity. Qed.
+
+(* a capture pair in the chain changes neither what the other callbacks see nor the outcome *)
+Lemma run_cbs_dp l l' : dp l l' -> forall x lg r rest lg1, run_cbs l x lg = (r, rest, lg1) ->
+  exists rest', run_cbs l' x lg = (r, rest', lg1) /\ dp rest rest'.
+Proof.
+  induction 1 as [|p l l' H IH|l l' H IH]; intros x lg r rest lg1 E; simpl in *.
+  - injection E as <- <- <-. exists []. split; [reflexivity|constructor].
+  - destruct (step_cb p x lg) as [[y|] lg2].
+    + apply IH, E.
+    + injection E as <- <- <-. exists l'. split; [reflexivity|assumption].
+  - rewrite step_cb_pass in E. apply IH, E.
+Qed.
+
+Lemma run_callbacks_Rel d d' lg : Rel d d' -> forall d1 lg1, run_callbacks d lg = (d1, lg1) ->
+  exists d1', run_callbacks d' lg = (d1', lg1) /\ Rel d1 d1'.
+Proof.
+  intros H d1 lg1 E. pose proof (Rel_runnable d d' H) as R. unfold run_callbacks in *.
+  rewrite <- R. destruct (runnable d).
+  - pose proof H as (A & B & C & D & F & G). rewrite <- B.
+    destruct (d_result d) as [x|].
+    + destruct (run_cbs (d_callbacks d) x lg) as [[r rest] lg2] eqn:RC.
+      destruct (run_cbs_dp _ _ C _ _ _ _ _ RC) as (rest' & RC' & DP). rewrite RC'.
+      destruct r as [y|]; injection E as <- <-; eexists; (split; [reflexivity|]);
+        repeat split; simpl; auto.
+    + injection E as <- <-. eexists; split; [reflexivity|exact H].
+  - injection E as <- <-. eexists; split; [reflexivity|exact H].
+Qed.
+
+Lemma Rel_with_cb p d d' : Rel d d' -> Rel (with_cb p d) (with_cb p d').
+Proof. intros (A & B & C & D & E & F). repeat split; simpl; auto. apply dp_app, C. Qed.
+
+Lemma add_callbacks_Rel p d d' lg : Rel d d' -> forall d1 lg1, add_callbacks p d lg = (d1, lg1) ->
+  exists d1', add_callbacks p d' lg = (d1', lg1) /\ Rel d1 d1'.
+Proof. intros H d1 lg1 E. unfold add_callbacks in *. eapply (run_callbacks_Rel (with_cb p d)); [apply Rel_with_cb, H | exact E]. Qed.
+
+Lemma fire_Rel x d d' lg : Rel d d' ->
+  match fire x d lg with
+  | None => fire x d' lg = None
+  | Some (d1, lg1) => exists d1', fire x d' lg = Some (d1', lg1) /\ Rel d1 d1'
+  end.
+Proof.
+  intro H. unfold fire. pose proof H as (A & B & C & D & E & F). rewrite <- A.
+  destruct (d_called d); [reflexivity|].
+  match goal with |- context [run_callbacks ?a lg] => destruct (run_callbacks a lg) as [d1 lg1] eqn:RC end.
+  eapply run_callbacks_Rel in RC as (d1' & RC' & R1).
+  - rewrite RC'. eexists; split; [reflexivity|exact R1].
+  - repeat split; simpl; auto.
+Qed.
+
+(* every operation other than a match does the same to both Deferreds *)
+Lemma step_Rel o d d' lg : (forall m, o <> OMatch m) -> Rel d d' ->
+  forall out d1 lg1, step o d lg = (out, d1, lg1) ->
+  exists d1', step o d' lg = (out, d1', lg1) /\ Rel d1 d1'.
+Proof.
+  intros NM H out d1 lg1 E. destruct o as [m|v|e|cb eb| | | |x]; simpl in *.
+  - exfalso. eapply NM; reflexivity.
+  - pose proof (fire_Rel (RVal v) d d' lg H) as F. destruct (fire (RVal v) d lg) as [[d2 lg2]|].
+    + destruct F as (d2' & F & R2). rewrite F. injection E as <- <- <-. eexists; split; [reflexivity|exact R2].
+    + rewrite F. injection E as <- <- <-. eexists; split; [reflexivity|exact H].
+  - pose proof (fire_Rel (RErr e) d d' lg H) as F. destruct (fire (RErr e) d lg) as [[d2 lg2]|].
+    + destruct F as (d2' & F & R2). rewrite F. injection E as <- <- <-. eexists; split; [reflexivity|exact R2].
+    + rewrite F. injection E as <- <- <-. eexists; split; [reflexivity|exact H].
+  - destruct (add_callbacks (cb, eb) d lg) as [d2 lg2] eqn:A.
+    destruct (add_callbacks_Rel _ _ _ _ H _ _ A) as (d2' & A' & R2). rewrite A'.
+    injection E as <- <- <-. eexists; split; [reflexivity|exact R2].
+  - unfold extract_result in *. rewrite <- (Rel_runnable d d' H).
+    pose proof H as (_ & B0 & _). rewrite <- B0.
+    destruct (add_callbacks (CConst 0, CConst 0) d lg) as [d2 lg2] eqn:A.
+    destruct (add_callbacks_Rel _ _ _ _ H _ _ A) as (d2' & A' & R2). rewrite A'.
+    injection E as <- <- <-. eexists; split; [reflexivity|exact R2].
+  - injection E as <- <- <-. eexists; split; [reflexivity|].
+    destruct H as (A & B & C & D & F & G). repeat split; simpl; auto.
+  - unfold unpause in *. pose proof H as (A & B & C & D & F & G). rewrite <- D.
+    destruct (d_paused d) as [|k].
+    + injection E as <- <- <-. eexists; split; [reflexivity|exact H].
+    + match type of E with context [run_callbacks ?a lg] => destruct (run_callbacks a lg) as [d2 lg2] eqn:RC end.
+      eapply run_callbacks_Rel in RC as (d2' & RC' & R2).
+      * rewrite RC'. injection E as <- <- <-. eexists; split; [reflexivity|exact R2].
+      * repeat split; simpl; auto.
+  - unfold resume in *. pose proof H as (A & B & C & D & F & G). rewrite <- F.
+    destruct (d_waiting d).
+    + match type of E with context [run_callbacks ?a lg] => destruct (run_callbacks a lg) as [d2 lg2] eqn:RC end.
+      eapply run_callbacks_Rel in RC as (d2' & RC' & R2).
+      * rewrite RC'. injection E as <- <- <-. eexists; split; [reflexivity|exact R2].
+      * repeat split; simpl; auto.
+    + injection E as <- <- <-. eexists; split; [reflexivity|exact H].
+Qed.
+
+Lemma inspects_consumes m s : inspects m s = consumes m s.
+Proof. destruct m, s; reflexivity. Qed.
+
+(* a match against the run without it: nothing, or - after looking at a failure - an errback returning None *)
+Lemma match_Rel m d d' lg : good d -> Rel d d' ->
+  forall b d1 lg1, match_deferred m d lg = (b, d1, lg1) ->
+  lg1 = lg /\
+  if consumes m (state_of d)
+  then exists d1', add_callbacks (CPass, CConst 0) d' lg = (d1', lg) /\ Rel d1 d1'
+  else Rel d1 d'.
+Proof.
+  intros G H b d1 lg1 E. rewrite <- inspects_consumes. destruct (good_cases d G) as [I|[x ->]].
+  - rewrite (match_deferred_idle m d lg I) in E. injection E as <- <- <-.
+    rewrite (inspects_idle m d I). split; [reflexivity|].
+    destruct H as (A & B & C & D & F & K). repeat split; simpl; auto. apply dp_app_skip, C.
+  - rewrite match_deferred_ready in E. injection E as <- <- <-. split; [reflexivity|].
+    apply Rel_ready in H. subst d'.
+    destruct (inspects m (state_of (ready x))) eqn:J; [|apply Rel_refl].
+    exists consumed. split; [|apply Rel_refl].
+    destruct x as [v|e]; [destruct m; discriminate|reflexivity].
+Qed.
+
+Lemma run_ops_cons o r d lg :
+  run_ops (o :: r) d lg =
+  let '(out, d', lg') := step o d lg in
+  let '(xs, d'', lg'') := run_ops r d' lg' in
+  (mkO (state_of d) (d_called d) out (state_of d') (d_called d') (length lg' - length lg) :: xs, d'', lg'').
+Proof. reflexivity. Qed.
+
+(* the whole history: same recorded values, related final Deferreds *)
+Theorem erase_simulation ops : forall d d' lg, good d -> Rel d d' ->
+  forall xs df lgf, run_ops ops d lg = (xs, df, lgf) ->
+  exists xs' df', run_ops (erase ops d lg) d' lg = (xs', df', lgf) /\ Rel df df'.
+Proof.
+  induction ops as [|o r IH]; intros d d' lg G H xs df lgf E.
+  - simpl in *. injection E as <- <- <-. eauto.
+  - rewrite run_ops_cons in E. simpl erase.
+    pose proof (step_good o d lg G) as G1.
+    destruct (step o d lg) as [[out d1] lg1] eqn:S. simpl in G1.
+    destruct (run_ops r d1 lg1) as [[xs1 d2] lg2] eqn:RO. injection E as <- <- <-.
+    assert (NMcase : (forall m, o <> OMatch m) ->
+            exists xs' df', run_ops (o :: erase r d1 lg1) d' lg = (xs', df', lg2) /\ Rel d2 df').
+    { intro NM. destruct (step_Rel o d d' lg NM H _ _ _ S) as (d1' & S' & R1).
+      destruct (IH d1 d1' lg1 G1 R1 _ _ _ RO) as (xs' & df' & RO' & Rf).
+      rewrite run_ops_cons, S', RO'. eauto. }
+    destruct o as [m|v|e|cb eb| | | |x]; try (apply NMcase; discriminate).
+    clear NMcase. simpl in S.
+    destruct (match_deferred m d lg) as [[b dm] lgm] eqn:M. injection S as <- <- <-.
+    destruct (match_Rel m d d' lg G H _ _ _ M) as [-> MR].
+    destruct (consumes m (state_of d)).
+    + destruct MR as (d1' & A & R1).
+      destruct (IH dm d1' lg G1 R1 _ _ _ RO) as (xs' & df' & RO' & Rf).
+      simpl app. rewrite run_ops_cons. simpl step. rewrite A, RO'. eauto.
+    + simpl app. apply (IH dm d' lg G1 MR _ _ _ RO).
+Qed.
+
+(* ====================================================================== *)
+(* 6. the model meets the statement, for every history                     *)
+(* ====================================================================== *)
+Lemma step_okb o d lg : good d -> forall out d1 lg1, step o d lg = (out, d1, lg1) ->
+  op_okb o (mkO (state_of d) (d_called d) out (state_of d1) (d_called d1) (length lg1 - length lg)) = true
+  /\ erase_op o (mkO (state_of d) (d_called d) out (state_of d1) (d_called d1) (length lg1 - length lg))
+     = match o with
+       | OMatch m => if consumes m (state_of d) then [OAdd CPass (CConst 0)] else []
+       | _ => [o]
+       end.
+Proof.
+  intros G out d1 lg1 E. destruct o as [m|v|e|cb eb| | | |x]; simpl; try (split; reflexivity).
+  - simpl in E. destruct (match_deferred m d lg) as [[b dm] lgm] eqn:M. injection E as <- <- <-.
+    destruct (match_deferred_okb m d lg G _ _ _ M) as (-> & C & -> & A).
+    rewrite <- inspects_consumes. unfold after_okb.
+    rewrite C, Nat.sub_diag, Bool.eqb_reflx. simpl.
+    destruct (inspects m (state_of d)).
+    + subst dm. simpl. rewrite Bool.eqb_reflx. split; reflexivity.
+    + rewrite A. rewrite Bool.eqb_reflx. simpl. split; [|reflexivity]. apply dstate_eqb_spec. reflexivity.
+  - simpl in E. pose proof (extract_result_okb d lg G) as X.
+    destruct (extract_result d lg) as [[r dx] lgx]. simpl in X. injection E as <- <- <-.
+    rewrite X. split; [|reflexivity]. apply opout_eqb_spec. reflexivity.
+Qed.
+
+Lemma run_ops_okb ops : forall d lg, good d ->
+  forall xs df lgf, run_ops ops d lg = (xs, df, lgf) ->
+  forall2b op_okb ops xs = true /\ erase_obs ops xs = erase ops d lg.
+Proof.
+  induction ops as [|o r IH]; intros d lg G xs df lgf E.
+  - simpl in E. injection E as <- <- <-. split; reflexivity.
+  - rewrite run_ops_cons in E. simpl erase.
+    pose proof (step_good o d lg G) as G1.
+    destruct (step o d lg) as [[out d1] lg1] eqn:S. simpl in G1.
+    destruct (run_ops r d1 lg1) as [[xs1 d2] lg2] eqn:RO. injection E as <- <- <-.
+    destruct (IH d1 lg1 G1 _ _ _ RO) as [I1 I2].
+    destruct (step_okb o d lg G _ _ _ S) as [S1 S2].
+    simpl. rewrite S1, I1, S2, I2. split; reflexivity.
+Qed.
+
+Lemma last_cons' {A} (l : list A) : forall a d, last (a :: l) d = last l a.
+Proof.
+  induction l as [|b l IH]; intros a d; [reflexivity|].
+  change (last (a :: b :: l) d) with (last (b :: l) d). rewrite (IH b d), (IH b a). reflexivity.
+Qed.
+
+Lemma run_ops_final ops : forall d lg xs df lgf, run_ops ops d lg = (xs, df, lgf) ->
+  last (map p_after xs) (state_of d) = state_of df /\ last (map p_cafter xs) (d_called d) = d_called df.
+Proof.
+  induction ops as [|o r IH]; intros d lg xs df lgf E.
+  - simpl in E. injection E as <- <- <-. split; reflexivity.
+  - rewrite run_ops_cons in E.
+    destruct (step o d lg) as [[out d1] lg1].
+    destruct (run_ops r d1 lg1) as [[xs1 d2] lg2] eqn:RO. injection E as <- <- <-.
+    destruct (IH d1 lg1 _ _ _ RO) as [I1 I2]. simpl map. rewrite !last_cons'. simpl. split; assumption.
+Qed.
+
+(* nothing is on record as an unhandled failure unless the Deferred holds a failure or is stuck *)
+Lemma good_unhandled d : good d -> d_debugfail d = true ->
+  is_err (state_of d) || dstate_eqb (state_of d) SWaiting = true.
+Proof.
+  intros G U. destruct (good_cases d G) as [I|[x ->]].
+  - rewrite (state_idle d I). destruct G as [_ G2]. rewrite (G2 U). reflexivity.
+  - destruct x; [discriminate|reflexivity].
+Qed.
+
+Lemma model_hist_okb ops : hist_okb ops (model_hist ops) = true.
+Proof.
+  unfold model_hist.
+  destruct (run_ops ops new_deferred []) as [[xs d] lg] eqn:E.
+  destruct (erase_simulation ops _ _ _ good_new (Rel_refl _) _ _ _ E) as (xs' & de & E' & R).
+  rewrite E'. unfold hist_okb. simpl.
+  destruct (run_ops_okb ops _ _ good_new _ _ _ E) as [O1 O2].
+  destruct (run_ops_final ops _ _ _ _ _ E) as [F1 F2].
+  pose proof (run_ops_good ops new_deferred [] good_new) as G. rewrite E in G. simpl in G.
+  change (final_state xs) with (last (map p_after xs) (state_of new_deferred)).
+  change (final_called xs) with (last (map p_cafter xs) (d_called new_deferred)).
+  rewrite F1, F2, O1, O2. simpl.
+  replace (list_eqb op_eqb (erase ops new_deferred []) (erase ops new_deferred [])) with true
+    by (symmetry; apply ops_eqb_spec; reflexivity).
+  replace (log_eqb lg lg) with true by (symmetry; apply log_eqb_spec; reflexivity).
+  rewrite (Rel_state _ _ R).
+  replace (dstate_eqb (state_of de) (state_of de)) with true by (symmetry; apply dstate_eqb_spec; reflexivity).
+  destruct R as (A & _ & _ & _ & _ & U). unfold unhandled. rewrite A, U, !Bool.eqb_reflx. simpl.
+  rewrite <- U. destruct (d_debugfail d) eqn:DF; [|apply orb_true_r].
+  rewrite <- (Rel_state d de) by (repeat split; tauto || idtac).
+  rewrite orb_false_r. apply good_unhandled; assumption.
+Qed.
